@@ -216,6 +216,14 @@ def confirm(real, pid, obname, f, write=True):
 def replay_file(path):
     from sx import real
     d = json.load(open(path))
+    if d.get("kind") == "allocator-kernel":
+        from props import alloc_kernel
+        names, draws = d["names_in_use"], d.get("random_draws") or [1000]
+        want = d["real_result"][1]
+        kind, val = alloc_kernel.real_run(names, d["allow_list"], lambda seq: want if want in seq else seq[0], draws)
+        same = [kind, val] == d["real_result"]
+        print(json.dumps(dict(property="C04", post=d.get("post"), reproduces=same, real_result=[kind, val]), indent=1))
+        return 1 if same else 2
     sc = d["replay"]
     obs, diffs = real.run_and_compare(sc)
     print(json.dumps(dict(property=d.get("property"), assertion=d.get("assertion"),
